@@ -215,7 +215,7 @@ theorem indexDef_o (n : PTree) (hn : Shaped n) : StmtSpec ws0 n (Index.indexDef 
   have hv := hr.value; have ht := hr.typ
   unfold Index.indexDef
   dsimp only
-  refine Triple.bind (PAt.neutral (Index.sameFileDefset_n hv ht) _) fun defsetId => ?_
+  refine Triple.bind (PAt.neutral (Index.defDefset_n hv ht) _) fun defsetId => ?_
   split
   · rename_i nv hnv
     obtain ⟨wnv, n1, n2⟩ := Ast.child_bounds hn.wf hnv
